@@ -643,9 +643,11 @@ def _check_dump(viol, plan, S1, mirror, visible, status, progress, texts, handed
         except UnicodeDecodeError:
             continue
         ilines = files[p]["lines"]
+        # a partial output may end in a torn line: only terminated lines count there
+        usable = len(olines) if status.get(p) == "complete" else len(olines) - 1
         # map generated lines to text lines (a CR/LF eol or a bad segment does not add lines here)
         for n, ln in enumerate(ilines):
-            if n >= len(olines):
+            if n >= usable:
                 break
             if not any(s[0] in ("a4", "a6") for s in ln["segs"]):
                 continue
